@@ -60,6 +60,12 @@ def accumulator_shape(fi):
     if len(rets) != 1 and len(after) == 1:
         rets = after
     v = rets[0].value
+    # `tmp = <expr>; return tmp` (a temporary assigned once, after the loop): the shape is that of <expr>
+    if isinstance(v, ast.Name):
+        defs = [a for a in ast.walk(fi.node) if isinstance(a, ast.Assign) and len(a.targets) == 1 and isinstance(a.targets[0], ast.Name) and a.targets[0].id == v.id]
+        aug = [a for a in ast.walk(fi.node) if isinstance(a, ast.AugAssign) and isinstance(a.target, ast.Name) and a.target.id == v.id]
+        if len(defs) == 1 and not aug and defs[0].lineno > loops[0].end_lineno:
+            v = defs[0].value
     acc, kinds, extra_inv, buffers = None, {}, [], []
     def is_count(e, sources):
         # len(chunk), sock.recv_into(...), or a local assigned from one of them in the loop
